@@ -16,6 +16,7 @@ import (
 // An `advance n` (n >= 1 for the wheel) must deliver exactly the accepted, uncancelled timers whose
 // due time is <= the new time, in non-decreasing due order.
 type rt struct {
+	serial    int
 	id        int
 	delay     int64
 	period    int64
@@ -31,6 +32,13 @@ type Ref struct {
 	sched string
 	now   int64
 	ts    []*rt // by serial
+	// plain indexes over ts so that long histories stay linear (no other meaning): sch = the timers that may still
+	// be scheduled (compacted now and then), idx = the latest timer started under an id, multi = an id was handed
+	// out while still scheduled (already a failure; from then on the table is searched linearly again)
+	sch   []*rt
+	idx   map[int]*rt
+	multi bool
+	Cbuf  int // live runs: capacity of C (bounds what can be in flight when a Cancel returns)
 	addQ  []int // serials of unhandled start requests
 	delQ  []int
 	// Finding is called for every property failure: key, sentence.
@@ -49,12 +57,41 @@ type Ref struct {
 }
 
 func NewRef(c Case, finding func(key, what string)) *Ref {
-	return &Ref{sched: c.Sched, now: c.Time, Finding: finding}
+	return &Ref{sched: c.Sched, now: c.Time, Finding: finding, idx: map[int]*rt{}}
+}
+
+// live calls visit for every timer that is scheduled, and forgets the others now and then.
+func (f *Ref) live(visit func(t *rt)) {
+	n := 0
+	for _, t := range f.sch {
+		if f.scheduled(t) {
+			n++
+			visit(t)
+		}
+	}
+	if 2*n+64 < len(f.sch) {
+		keep := f.sch[:0]
+		for _, t := range f.sch {
+			if f.scheduled(t) {
+				keep = append(keep, t)
+			}
+		}
+		for i := len(keep); i < len(f.sch); i++ {
+			f.sch[i] = nil
+		}
+		f.sch = keep
+	}
 }
 
 func (f *Ref) scheduled(t *rt) bool { return !t.cancelled && !t.done }
 
 func (f *Ref) byID(id int) *rt {
+	if !f.multi {
+		if t := f.idx[id]; t != nil && f.scheduled(t) {
+			return t
+		}
+		return nil
+	}
 	var hit *rt
 	for _, t := range f.ts {
 		if t.id == id && f.scheduled(t) {
@@ -76,12 +113,15 @@ func (f *Ref) Step(o Op, ob Obs) {
 		f.Finding("crash:"+tag+":"+o.K, fmt.Sprintf("%s: `%s` panicked: %s", tag, o, ob.Panic))
 		return
 	}
+	if ob.Hang != "" {
+		f.Finding("hang:"+tag+":"+o.K, fmt.Sprintf("%s: `%s` at time %d did not return: %s (scheduled timers: %v)", tag, o.Short(), f.now, ob.Hang, f.ScheduledIDs()))
+		return
+	}
 	switch o.K {
 	case "after", "every":
-		for _, t := range f.ts {
-			if f.scheduled(t) && t.id == ob.ID {
-				f.Finding("id-reused:"+tag, fmt.Sprintf("%s: start returned id %d which is still scheduled", tag, ob.ID))
-			}
+		if f.byID(ob.ID) != nil {
+			f.Finding("id-reused:"+tag, fmt.Sprintf("%s: start returned id %d which is still scheduled", tag, ob.ID))
+			f.multi = true
 		}
 		t := &rt{id: ob.ID, callAt: f.now}
 		a := o.A
@@ -97,6 +137,9 @@ func (f *Ref) Step(o Op, ob Obs) {
 			t.delay, t.period = a, a
 		}
 		f.ts = append(f.ts, t)
+		f.sch = append(f.sch, t)
+		f.idx[t.id] = t
+		t.serial = len(f.ts) - 1
 		f.addQ = append(f.addQ, len(f.ts)-1)
 	case "cancel":
 		t := f.byID(int(o.A))
@@ -111,11 +154,7 @@ func (f *Ref) Step(o Op, ob Obs) {
 				f.CancelAtExpiry++
 			}
 			t.cancelled = true
-			for i, s := range f.ts {
-				if s == t {
-					f.delQ = append(f.delQ, i)
-				}
-			}
+			f.delQ = append(f.delQ, t.serial)
 		}
 	case "add":
 		if ob.Bool != (len(f.addQ) > 0) {
@@ -144,6 +183,8 @@ func (f *Ref) Step(o Op, ob Obs) {
 		f.now += o.A
 	case "ftick":
 		f.fineTick(o, ob)
+	case "ladvance":
+		f.liveAdvance(o, ob)
 	case "advance":
 		from := f.now
 		f.now += o.A
@@ -155,9 +196,9 @@ func (f *Ref) Step(o Op, ob Obs) {
 		}
 		var want []dv
 		if ticked {
-			for _, t := range f.ts {
-				if !t.accepted || !f.scheduled(t) {
-					continue
+			f.live(func(t *rt) {
+				if !t.accepted {
+					return
 				}
 				for t.due <= f.now {
 					want = append(want, dv{t.due, t.id})
@@ -173,7 +214,7 @@ func (f *Ref) Step(o Op, ob Obs) {
 						break
 					}
 				}
-			}
+			})
 		}
 		sort.SliceStable(want, func(i, j int) bool { return want[i].due < want[j].due })
 		f.Deliveries += len(want)
@@ -233,11 +274,7 @@ func (f *Ref) Step(o Op, ob Obs) {
 		}
 	case "size":
 		n := 0
-		for _, t := range f.ts {
-			if f.scheduled(t) {
-				n++
-			}
-		}
+		f.live(func(t *rt) { n++ })
 		if ob.N != n {
 			f.Finding("size:"+tag, fmt.Sprintf("%s: Size()=%d, %d timers are scheduled", tag, ob.N, n))
 		}
@@ -374,9 +411,202 @@ func (f *Ref) fineTick(o Op, ob Obs) {
 		f.Finding("transport:"+tag, fmt.Sprintf("%s: %s: committed %v but Chan() delivered %v", tag, span, commits, ob.Fired))
 	}
 	// nothing that is due may be left out
-	for _, t := range f.ts {
-		if t.accepted && f.scheduled(t) && t.due <= f.now {
+	f.live(func(t *rt) {
+		if t.accepted && t.due <= f.now {
 			f.Finding("not-delivered:"+tag, fmt.Sprintf("%s: %s: timer %d due at %d was not delivered", tag, span, t.id, t.due))
 		}
+	})
+}
+
+// liveAdvance: `ladvance n` — the worker ran a burst (wheel: n ticks, heap: n units and one tick) on a goroutine of
+// its own while this goroutine was the (slow) consumer of Chan() and, at the moments the worker stood blocked in
+// its channel send, a client: ob.Steps[k] are the client ops issued at the k-th such moment (ID = deliveries
+// received before it), ob.Fired everything received until the burst had ended and Chan() was empty.
+//
+// Where exactly the worker stands between "decide" and "send" is not observable here, so the statement is the
+// schedule-independent one: a timer started, accepted and due within the burst is delivered exactly as often as it
+// falls due — unless a Cancel inside the burst returned true: then a one-shot timer is not delivered at all, and a
+// periodic one at most as often as it can have been committed before that Cancel (received by then, plus what fits
+// in Chan(), plus the one in the blocked send). A Cancel of a one-shot timer that may already be committed may
+// answer false; then it must be delivered. Nothing else is delivered; deliveries come in due order.
+func (f *Ref) liveAdvance(o Op, ob Obs) {
+	tag := f.sched
+	from := f.now
+	f.now += o.A
+	span := fmt.Sprintf("burst %d -> %d (consumer of capacity-%d Chan() reads only when the worker is blocked)", from, f.now, f.Cbuf)
+	inWindow := func(t *rt) bool { return t.accepted && t.due <= f.now }
+	type cinfo struct {
+		recvAt int // deliveries of this timer received when Cancel returned true
+	}
+	cancelledNow := map[*rt]cinfo{}
+	answeredFalse := map[*rt]bool{}
+	rc := map[int]int{} // deliveries received so far, per id
+	m := 0
+	upTo := func(n int) {
+		for ; m < n && m < len(ob.Fired); m++ {
+			rc[ob.Fired[m]]++
+		}
+	}
+	// the timers that were scheduled when the burst began (those started inside it are never accepted inside it)
+	var atStart []*rt
+	f.live(func(t *rt) { atStart = append(atStart, t) })
+	for k, st := range ob.Steps {
+		upTo(st.ID)
+		for i, co := range st.Ops {
+			cob := st.Obs[i]
+			if cob.Refuse {
+				continue
+			}
+			f.ClientInPass++
+			if cob.Panic != "" {
+				f.Finding("crash:"+tag+":"+co.K, fmt.Sprintf("%s: %s: `%s` issued while the worker was blocked panicked: %s", tag, span, co, cob.Panic))
+				return
+			}
+			switch co.K {
+			case "after", "every":
+				f.Step(co, cob)
+			case "cancel":
+				t := f.byID(int(co.A))
+				if t != nil && t.period == 0 && inWindow(t) && rc[t.id] > 0 {
+					t = nil // a one-shot timer that has been received is delivered
+				}
+				switch {
+				case t == nil:
+					if cob.Bool {
+						f.Finding("cancel-result:"+tag+":want-false", fmt.Sprintf("%s: %s: block %d: Cancel(%d) returned true, the timer is not pending (unknown, delivered or cancelled)", tag, span, k, co.A))
+					}
+				case t.period == 0 && inWindow(t):
+					// may be committed already: both answers are possible, each binds what follows
+					if cob.Bool {
+						f.CancelInPass++
+						t.cancelled = true
+						cancelledNow[t] = cinfo{rc[t.id]}
+						f.delQ = append(f.delQ, t.serial)
+					} else {
+						answeredFalse[t] = true
+					}
+				default:
+					if !cob.Bool {
+						f.Finding("cancel-result:"+tag+":want-true", fmt.Sprintf("%s: %s: block %d: Cancel(%d) returned false, the timer is pending", tag, span, k, co.A))
+					} else {
+						f.CancelInPass++
+						t.cancelled = true
+						cancelledNow[t] = cinfo{rc[t.id]}
+						f.delQ = append(f.delQ, t.serial)
+					}
+				}
+			case "sched":
+				t := f.byID(int(co.A))
+				maybe := t != nil && t.period == 0 && inWindow(t)
+				if maybe && rc[t.id] == 0 && !answeredFalse[t] {
+					break // committed or not: not observable
+				}
+				want := t != nil && !maybe
+				if cob.Bool != want {
+					f.Finding(fmt.Sprintf("is-scheduled:%s:want-%v", tag, want), fmt.Sprintf("%s: %s: block %d: IsScheduled(%d)=%v, want %v", tag, span, k, co.A, cob.Bool, want))
+				}
+			case "size":
+				lo, hi := 0, 0
+				f.live(func(t *rt) {
+					switch {
+					case t.period == 0 && inWindow(t) && (rc[t.id] > 0 || answeredFalse[t]):
+					case t.period == 0 && inWindow(t):
+						hi++
+					default:
+						lo++
+						hi++
+					}
+				})
+				if cob.N < lo || cob.N > hi {
+					f.Finding("size:"+tag, fmt.Sprintf("%s: %s: block %d: Size()=%d, between %d and %d timers are scheduled", tag, span, k, cob.N, lo, hi))
+				}
+			}
+		}
+	}
+	upTo(len(ob.Fired))
+	// what each timer owes
+	type dv struct {
+		due int64
+		id  int
+	}
+	dues := map[int][]int64{}
+	known := map[int]bool{}
+	for _, t := range atStart {
+		known[t.id] = true
+		var ds []int64
+		for d := t.due; t.accepted && d <= f.now; {
+			ds = append(ds, d)
+			if t.period <= 0 {
+				break
+			}
+			if f.sched == "wheel" {
+				d += t.period
+			} else {
+				d = f.now + t.period
+			}
+		}
+		got := rc[t.id]
+		if ci, ok := cancelledNow[t]; ok {
+			max := len(ds)
+			if t.period == 0 {
+				max = 0
+			} else if f.sched == "wheel" && ci.recvAt+f.Cbuf+1 < max {
+				max = ci.recvAt + f.Cbuf + 1
+			}
+			if got > max {
+				f.Finding("delivered-after-cancel-or-twice:"+tag, fmt.Sprintf("%s: %s: timer %d was delivered %d time(s) although Cancel returned true when %d had been received (at most %d can have been committed by then)", tag, span, t.id, got, ci.recvAt, max))
+			}
+			if got < len(ds) {
+				ds = ds[:got]
+			}
+			dues[t.id] = ds
+			continue
+		}
+		dues[t.id] = ds
+		f.Deliveries += len(ds)
+		switch {
+		case got < len(ds):
+			f.Finding("not-delivered:"+tag, fmt.Sprintf("%s: %s: timer %d due at %v was delivered %d time(s), want %d", tag, span, t.id, ds, got, len(ds)))
+		case got > len(ds) && len(ds) == 0:
+			f.Finding("delivered-not-due:"+tag, fmt.Sprintf("%s: %s: timer %d delivered %d time(s), it is not due", tag, span, t.id, got))
+		case got > len(ds):
+			f.Finding("delivered-after-cancel-or-twice:"+tag, fmt.Sprintf("%s: %s: timer %d delivered %d time(s), want %d", tag, span, t.id, got, len(ds)))
+		}
+		// the table after the burst
+		t.fired += len(ds)
+		if len(ds) > 0 {
+			if t.period > 0 {
+				if f.sched == "wheel" {
+					t.due = ds[len(ds)-1] + t.period
+				} else {
+					t.due = f.now + t.period
+				}
+			} else {
+				t.done = true
+			}
+		}
+	}
+	for id, n := range rc {
+		if !known[id] {
+			f.Finding("delivered-after-cancel-or-twice:"+tag, fmt.Sprintf("%s: %s: timer %d delivered %d time(s): it was not scheduled when the burst began (unknown, cancelled or already delivered)", tag, span, id, n))
+		}
+	}
+	// due order of what was received
+	pos := map[int]int{}
+	last, have := f.lastDue, f.haveLast && f.StrictOrder
+	for _, id := range ob.Fired {
+		ds := dues[id]
+		if pos[id] >= len(ds) {
+			continue
+		}
+		d := ds[pos[id]]
+		pos[id]++
+		if have && d < last {
+			f.Finding("order:"+tag, fmt.Sprintf("%s: %s: timer %d (due %d) delivered after a timer due %d", tag, span, id, d, last))
+		}
+		last, have = d, true
+	}
+	if have {
+		f.lastDue, f.haveLast = last, true
 	}
 }
